@@ -18,13 +18,53 @@ import (
 
 // ---- behaviours emitted by LdiffGen.tla ----
 
+// bpar: the tuning of one index (each peer has its own): threshold and exponent (df = Df^Lg)
+type bpar struct {
+	Th int `json:"th"`
+	Lg int `json:"lg"`
+}
 type bcfg struct {
-	Df     int              `json:"df"`
+	Df     int              `json:"df"` // base divide factor of the model (digits of the paths)
 	D      int              `json:"d"`
-	Th     int              `json:"th"`
+	Par    map[string]bpar  `json:"par"`
 	Ids    map[string][]int `json:"ids"`
 	Peers  []string         `json:"peers"`
 	Legacy []string         `json:"legacy"`
+}
+
+// tuning returns the real (divideFactor, compareThreshold) of a peer
+func (c bcfg) tuning(peer string) (df, th int) {
+	p := c.Par[peer]
+	df = 1
+	for i := 0; i < max(p.Lg, 1); i++ {
+		df *= c.Df
+	}
+	return df, max(p.Th, 1)
+}
+
+func (c bcfg) String() string {
+	s := fmt.Sprintf("base df=%d", c.Df)
+	for _, p := range c.Peers {
+		df, th := c.tuning(p)
+		s += fmt.Sprintf(" %s:(df=%d,th=%d)", p, df, th)
+	}
+	return s
+}
+
+// mixed says whether the two peers are tuned differently
+func (c bcfg) mixed() string {
+	if len(c.Peers) < 2 {
+		return "single"
+	}
+	d0, t0 := c.tuning(c.Peers[0])
+	d1, t1 := c.tuning(c.Peers[1])
+	if d0 == d1 && t0 == t1 {
+		return "same-tuning"
+	}
+	if d0 == d1 {
+		return "mixed-th"
+	}
+	return "mixed-df"
 }
 type bproj struct {
 	Mat [][]int `json:"mat"`
@@ -85,14 +125,14 @@ func traceToBehaviour(ro replayObj) (*behaviour, error) {
 	if u == nil {
 		return nil, fmt.Errorf("unknown trace universe %q", ro.File)
 	}
-	b := &behaviour{Spec: "LdiffTrace", Cfg: bcfg{Df: u.Df, D: u.D, Th: 1, Ids: u.Ids, Peers: []string{"L", "R"}}}
+	b := &behaviour{Spec: "LdiffTrace", Cfg: bcfg{Df: u.Df, D: u.D, Par: map[string]bpar{}, Ids: u.Ids, Peers: []string{"L", "R"}}}
 	if strings.HasSuffix(ro.File, "_leg") {
 		b.Cfg.Legacy = []string{"R"}
 	}
 	for _, line := range ro.Events {
 		var e struct {
-			Ev   string  `json:"ev"`
-			Th   int     `json:"th"`
+			Ev   string          `json:"ev"`
+			Par  map[string]bpar `json:"par"`
 			Peer string  `json:"peer"`
 			Els  [][]any `json:"els"`
 			Id   string  `json:"id"`
@@ -102,7 +142,7 @@ func traceToBehaviour(ro replayObj) (*behaviour, error) {
 		}
 		switch e.Ev {
 		case "Reset":
-			b.Cfg.Th = e.Th
+			b.Cfg.Par = e.Par
 			b.Steps = nil
 		case "Set":
 			b.Steps = append(b.Steps, bstep{Op: "SetMany", Peer: e.Peer, Els: e.Els})
@@ -176,10 +216,11 @@ func newWorld(cfg bcfg) *world {
 		leg[p] = true
 	}
 	for _, p := range cfg.Peers {
+		df, th := cfg.tuning(p)
 		if leg[p] {
-			w.peers[p] = newLegacy(cfg.Df, cfg.Th)
+			w.peers[p] = newLegacy(df, th)
 		} else {
-			w.peers[p] = newReal(cfg.Df, cfg.Th)
+			w.peers[p] = newReal(df, th)
 		}
 	}
 	w.paths = allPaths(cfg.Df, cfg.D+1)
@@ -443,7 +484,7 @@ func runBehaviour(j *judge, b *behaviour, check bool) int {
 		if s.St != nil && !drifted {
 			if d := sameProj(w.project(x), s.St); d != "" {
 				drifted = true
-				rep.DriftNote("step %d %s(%s %v) peer %s df=%d th=%d: %s", si+1, s.Op, s.Id, s.Els, s.Peer, b.Cfg.Df, b.Cfg.Th, d)
+				rep.DriftNote("step %d %s(%s %v) peer %s %v: %s", si+1, s.Op, s.Id, s.Els, s.Peer, b.Cfg, d)
 			}
 		}
 		if !check {
@@ -451,19 +492,20 @@ func runBehaviour(j *judge, b *behaviour, check bool) int {
 		}
 		// ---- C08: the acting index answers like a freshly filled one
 		if !x.IsLegacy() {
-			rep.Case(fmt.Sprintf("c08/%s/df%d/th%d", s.Op, b.Cfg.Df, b.Cfg.Th))
-			what, desc := checkFresh(x, b.Cfg.Df, b.Cfg.Th, w.tuples)
+			pdf, pth := b.Cfg.tuning(s.Peer)
+			rep.Case(fmt.Sprintf("c08/%s/df%d/th%d", s.Op, pdf, pth))
+			what, desc := checkFresh(x, pdf, pth, w.tuples)
 			// blame the operation that takes the index from canonical to non-canonical only
 			if what != "" && !w.stale[s.Peer] {
 				j.violate("C08", "fresh-mismatch/"+s.Op+"/"+what,
-					fmt.Sprintf("after %s (step %d, df=%d th=%d) the index differs from a freshly filled one: %s", s.Op, si+1, b.Cfg.Df, b.Cfg.Th, desc), replay())
+					fmt.Sprintf("after %s (step %d, df=%d th=%d) the index differs from a freshly filled one: %s", s.Op, si+1, pdf, pth, desc), replay())
 			}
 			w.stale[s.Peer] = what != ""
 			// ... and the advertised hash tells different contents apart (what DiffTypeCheck relies on)
 			cur := snapshot{x.Hash(), mustJSON(x.Elements())}
 			if prev, ok := w.prev[s.Peer]; ok && prev.hash == cur.hash && prev.els != cur.els {
 				j.violate("C08", "hash-unchanged-by-content-change/"+s.Op,
-					fmt.Sprintf("%s (step %d, df=%d th=%d) changed the contents from %s to %s but Hash() is still %s", s.Op, si+1, b.Cfg.Df, b.Cfg.Th, prev.els, cur.els, cur.hash), replay())
+					fmt.Sprintf("%s (step %d, df=%d th=%d) changed the contents from %s to %s but Hash() is still %s", s.Op, si+1, pdf, pth, prev.els, cur.els, cur.hash), replay())
 			}
 			w.prev[s.Peer] = cur
 		}
@@ -482,18 +524,18 @@ func runBehaviour(j *judge, b *behaviour, check bool) int {
 		for _, variant := range []string{"Diff", "CompareDiff"} {
 			for _, tr := range transports {
 				run := runDiff(loc, rem, variant, tr)
-				rep.Case(fmt.Sprintf("c07/%s/%s/%s/n%d-r%d-c%d", variant, tr, remoteKind, min(len(want.New), 2), min(len(want.Removed), 2), min(len(want.Ours)+len(want.Theirs), 2)))
+				rep.Case(fmt.Sprintf("c07/%s/%s/%s/%s/n%d-r%d-c%d", variant, tr, remoteKind, b.Cfg.mixed(), min(len(want.New), 2), min(len(want.Removed), 2), min(len(want.Ours)+len(want.Theirs), 2)))
 				if cls := judgeDiff(run, want); cls != "" {
 					j.violate("C07", fmt.Sprintf("diff-inexact/%s/%s/%s/remote-%s", variant, tr, cls, remoteKind),
-						fmt.Sprintf("%s over %s (df=%d th=%d, step %d): local %v remote %v: got new=%v changed=%v theirs=%v removed=%v err=%q panic=%q, expected new=%v ours=%v theirs=%v removed=%v",
-							variant, tr, b.Cfg.Df, b.Cfg.Th, si+1, w.modelEls(loc), w.modelEls(rem), w.modelNames(run.Got.New), w.modelNames(run.Got.Ours), w.modelNames(run.Got.Theirs),
+						fmt.Sprintf("%s over %s (%v, step %d): local %v remote %v: got new=%v changed=%v theirs=%v removed=%v err=%q panic=%q, expected new=%v ours=%v theirs=%v removed=%v",
+							variant, tr, b.Cfg, si+1, w.modelEls(loc), w.modelEls(rem), w.modelNames(run.Got.New), w.modelNames(run.Got.Ours), w.modelNames(run.Got.Theirs),
 							w.modelNames(run.Got.Removed), run.Err, run.Panic, w.modelNames(want.New), w.modelNames(want.Ours), w.modelNames(want.Theirs), w.modelNames(want.Removed)), replay())
 				}
 				// spec <-> code: rounds and result as the specification predicts them
 				if s.Diff != nil && s.Diff.Has && s.Diff.Ok && !drifted {
 					if d := w.compareWithSpecDiff(run, s.Diff); d != "" {
 						drifted = true
-						rep.DriftNote("step %d %s/%s df=%d th=%d: %s", si+1, variant, tr, b.Cfg.Df, b.Cfg.Th, d)
+						rep.DriftNote("step %d %s/%s %v: %s", si+1, variant, tr, b.Cfg, d)
 					}
 				}
 			}
